@@ -390,3 +390,53 @@ pub fn asymmetric_lines_pair(rng: &mut Rng, head: usize, tail: usize, l1: usize,
 }
 
 pub const BLOCK_SIZES: [usize; 5] = [10, 100, 1000, 2600, 4200];
+
+/// The same words wrapped at different widths (a "reflowed paragraph"): word-level ops of the
+/// inline diff span several lines.  A few words are changed as well.
+pub fn reflow_pair(rng: &mut Rng, max_words: usize) -> (String, String) {
+    let n = 4 + rng.below(max_words);
+    let words: Vec<String> = (0..n).map(|i| if rng.chance(1, 3) { format!("w{}", rng.below(6)) } else { format!("word{}", i) }).collect();
+    let mut words2 = words.clone();
+    for _ in 0..rng.below(3) {
+        let i = rng.below(words2.len());
+        match rng.below(3) {
+            0 => words2[i] = format!("changed{}", rng.below(10)),
+            1 => {
+                words2.remove(i);
+                if words2.is_empty() {
+                    words2.push("x".into());
+                }
+            }
+            _ => words2.insert(i, "extra".into()),
+        }
+    }
+    let wrap = |rng: &mut Rng, ws: &[String], width: usize, term: &str| -> String {
+        let mut s = String::new();
+        let mut on_line = 0;
+        for (i, w) in ws.iter().enumerate() {
+            if on_line > 0 && (on_line >= width || rng.chance(1, 12)) {
+                s.push_str(term);
+                on_line = 0;
+            } else if i > 0 {
+                s.push(' ');
+            }
+            s.push_str(w);
+            on_line += 1;
+        }
+        s
+    };
+    let t1 = *rng.pick(&["\n", "\n", "\r\n", "\r"]);
+    let t2 = if rng.chance(3, 4) { t1 } else { *rng.pick(&["\n", "\r\n", "\r"]) };
+    let (w1, w2) = (1 + rng.below(5), 1 + rng.below(5));
+    let mut a = wrap(rng, &words, w1, t1);
+    let mut b = wrap(rng, &words2, w2, t2);
+    if rng.chance(2, 3) {
+        a.push_str(t1);
+    }
+    if rng.chance(2, 3) {
+        b.push_str(t2);
+    }
+    let head = if rng.chance(1, 2) { format!("unchanged first line{}", t1) } else { String::new() };
+    let tail = if rng.chance(1, 2) && a.ends_with(t1) && b.ends_with(t2) { format!("unchanged last line{}", t1) } else { String::new() };
+    (format!("{}{}{}", head, a, tail), format!("{}{}{}", head, b, tail))
+}
